@@ -18,6 +18,9 @@ MENU["count>=2&min<0"] = ("COUNT(*) >= 2 AND MIN(v) < 0", {"o": "and", "a": MENU
 MENU["max>=3|count>=3"] = ("MAX(v) >= 3 OR COUNT(*) >= 3", {"o": "or", "a": MENU["max>=3"][1], "b": dict(MENU["count>=2"][1], lit=3)})
 MENU["min<0&count>=2"] = ("MIN(v) < 0 AND COUNT(*) >= 2", {"o": "and", "a": MENU["min<0"][1], "b": MENU["count>=2"][1]})
 MENU["sum>3|count>=3"] = ("SUM(v) > 3 OR COUNT(*) >= 3", {"o": "or", "a": MENU["sum>3"][1], "b": dict(MENU["count>=2"][1], lit=3)})
+# COUNT(v) counts the rows in which v is present and not NULL - not the rows (seeded runs only)
+MENU["countv>=2"] = ("COUNT(v) >= 2", {"o": "cmp", "fn": "count", "arg": {"k": "col", "c": "v"}, "op": ">=", "lit": 2})
+MENU["countv>=3"] = ("COUNT(v) >= 3", {"o": "cmp", "fn": "count", "arg": {"k": "col", "c": "v"}, "op": ">=", "lit": 3})
 MENU["band:sum"] = ("SUM(v) >= 3 AND SUM(v) < 8", {"o": "and", "a": dict(MENU["sum>3"][1], op=">=", lit=3), "b": dict(MENU["sum>3"][1], op="<", lit=8)})
 MENU["tier:sum,count"] = ("SUM(v) >= 6 OR COUNT(*) >= 3 AND SUM(v) >= 2", {"o": "or", "a": dict(MENU["sum>3"][1], op=">=", lit=6),
                           "b": {"o": "and", "a": dict(MENU["count>=2"][1], lit=3), "b": dict(MENU["sum>3"][1], op=">=", lit=2)}})
@@ -87,7 +90,7 @@ def run(tier):
     res.cov["exhaustive"] = True
     scen = []
     for pi, pred in enumerate(MENU):
-        if pred in ("band:sum", "tier:sum,count"):      # seeded runs only (not in the GlobalWin menu)
+        if pred in ("band:sum", "tier:sum,count", "countv>=2", "countv>=3"):      # seeded runs only (not in the GlobalWin menu)
             continue
         maxrows = 4 if quick else 5
         cfg = 'SPECIFICATION Spec\nCONSTANTS Groups = {"a","b"} RawVals = {0, 2, 4} Off = 1 MaxRows = %d Pred = "%s" Emit = TRUE\nINVARIANTS EmitScenario\nCHECK_DEADLOCK FALSE\n' % (maxrows, pred)
